@@ -32,8 +32,46 @@ def stripLayout (op : String) : String :=
   if op = "transform_f" || op = "transform_t" then "transform"
   else if op = "into_strided" then "into" else if op = "invinto_strided" then "invinto" else op
 
+/-- the loop of `apply_vec_into` with an explicit destination (`perm_v[new_idx] = v[old_idx]`): only needed for
+mis-sized destinations; for a destination of the permutation's size it is `applyInto` -/
+def intoLoop : List Nat → Nat → List Int → List Int → Option (List Int)
+  | [], _, _, out => some out
+  | o :: rest, i, v, out =>
+    match v[o]? with
+    | none => none
+    | some x => if i < out.length then intoLoop rest (i + 1) v (out.set i x) else none
+
+def unflattenRC (r c : Nat) (l : List Int) : List (List Int) :=
+  (List.range r).map (fun i => (l.drop (i * c)).take c)
+
+/-- A request may carry the history of its thread: `@after <mis-sized call> @ <request>` means that the request was made
+immediately after the mis-sized call (which may have panicked half way) on a fresh thread.  Model and reference are
+functions of the request alone, so the history is dropped here: any influence of it is a mismatch. -/
+def stripCtx (ws : List String) : List String :=
+  match ws with
+  | "@after" :: rest => (rest.dropWhile (· ≠ "@")).drop 1
+  | _ => ws
+
+/-- mis-sized calls: what the model says about them (`panic`, or the destination / vector / matrix afterwards) -/
+def handleFault (op : String) (rest : List String) : String :=
+  match splitBars rest with
+  | [a, v] =>
+    match nats? a, ints? v with
+    | some idxs, some v => if op = "xinplace" then showOptI (inPlace idxs v) else "bad-op"
+    | _, _ => "bad-op"
+  | [a, sz, v] =>
+    match nats? a, nats? sz, ints? v with
+    | some idxs, some [m], some v =>
+      if op = "xinto" then showOptI (intoLoop idxs 0 v (List.replicate m 0))
+      else if op = "xinvinto" then showOptI (applyInverseInto idxs v (List.replicate m 0))
+      else "bad-op"
+    | some idxs, some [r, c], some v =>
+      if op = "xtransform" then showOptI ((transform idxs (unflattenRC r c v)).map List.flatten) else "bad-op"
+    | _, _, _ => "bad-op"
+  | _ => "bad-op"
+
 def handle (line : String) : String :=
-  match words line with
+  match stripCtx (words line) with
   | "new" :: rest =>
     match nats? rest with
     | some idxs => showRes (new idxs)
@@ -43,6 +81,7 @@ def handle (line : String) : String :=
     | some idxs => (match inverse idxs with | .ok l => "ok " ++ joinNats l | .error _ => "panic")
     | none => "bad-op"
   | op :: rest =>
+    if op.startsWith "x" then handleFault op rest else
     let (a, b0) := splitBar rest
     -- requests on derived objects carry `| k |` (number of inverse() calls) before the payload
     let derived := op.startsWith "d" || op = "invk"
@@ -71,7 +110,7 @@ def handle (line : String) : String :=
 def specCheck (line : String) : String :=
   match line.splitOn "\t" with
   | [req, ans] =>
-    let ws := words req
+    let ws := stripCtx (words req)
     let aw := words ans
     match ws with
     | "new" :: rest =>
@@ -80,6 +119,8 @@ def specCheck (line : String) : String :=
                      else s!"fail new expected {Spec.Perm.expectedNew idxs}"
       | none => "fail bad-request"
     | op0 :: rest =>
+      -- mis-sized vectors / matrices are outside the property's quantifier (only (A) speaks about them)
+      if op0.startsWith "x" then "skip" else
       let (a, b0) := splitBar rest
       let derived := op0.startsWith "d" || op0 = "invk"
       let (kpart, b) := if derived then splitBar b0 else ([], b0)
@@ -105,7 +146,8 @@ def specCheck (line : String) : String :=
             | "matrix" => o = ((List.range n).flatMap fun i => (List.range n).map fun j => if j = idxs[i]! then (1:Int) else 0)
             | "transform" => o = ((List.range n).flatMap fun i => (List.range n).map fun j => v[idxs[i]! * n + idxs[j]!]!)
             | _ => false
-          if good then "ok" else s!"fail {op0} result-differs-from-reference"
+          let hist := if (words req).head? = some "@after" then "-after-a-mis-sized-call-on-the-same-thread" else ""
+          if good then "ok" else s!"fail {op0} result-differs-from-reference{hist}"
       | some _, some _, _ => s!"fail {op} valid-permutation-operation-did-not-return"
       | _, _, _ => "fail bad-request"
     | _ => "fail bad-request"
